@@ -53,6 +53,8 @@ pub enum SOp {
     FramesDrop,
     /// let the peer drain for a while (logical: until its buffer is idle for `us`)
     Pause(u64),
+    /// the application drops the terminal here, with whatever is still queued (ends the script)
+    DropTerminal,
 }
 
 #[derive(Clone, Debug, PartialEq, Eq, Hash, Serialize, Deserialize)]
@@ -300,6 +302,7 @@ fn check_term(script: &[SOp], drain: &DrainSpec, seed: u64, ctx: &mut Ctx) -> Re
     let mut encoder = TTYEncoder::new(term.capabilities().clone());
     let mut chunks: Vec<ChunkRec> = Vec::new();
     let mut last_drop_at: Option<usize> = None;
+    let mut dropped_early = false;
 
     let mut emit = |term: &mut SystemTerminal, parts: &[Part], chunks: &mut Vec<ChunkRec>| -> Result<(), Fail> {
         let id = chunks.len();
@@ -372,26 +375,46 @@ fn check_term(script: &[SOp], drain: &DrainSpec, seed: u64, ctx: &mut Ctx) -> Re
             SOp::Pause(us) => {
                 std::thread::sleep(Duration::from_micros(*us));
             }
+            SOp::DropTerminal => {
+                dropped_early = true;
+                break;
+            }
         }
     }
-    // end marker: written after the last drop, must arrive
-    let end_id = chunks.len();
-    emit(&mut term, &[Part::Payload(5)], &mut chunks)?;
-    term.flush().map_err(|e| Fail::new("term:flush-error", format!("{e}")))?;
-    // push everything out: poll until the queue is empty (logical bound on iterations)
-    let mut rounds = 0;
-    while term.frames_pending() > 0 {
-        term.poll(Some(Duration::from_millis(50)))
-            .map_err(|e| Fail::new("term:poll-error", format!("{e:?}")))?;
-        rounds += 1;
-        if rounds > 4000 {
-            ctx.nondeciding = true;
-            ctx.feat("term.drain-watchdog");
-            return Ok(());
+    let mut arrived = false;
+    let mut end_marker: Option<usize> = None;
+    if dropped_early {
+        // dispose drops the frames that have not started transmission: every chunk may be missing,
+        // none may be torn
+        let pending = term.frames_pending();
+        for c in chunks.iter_mut() {
+            c.droppable = true;
         }
+        last_drop_at = Some(chunks.len());
+        ctx.feat("term.dropped-with-output-pending.sessions");
+        ctx.feat_if(pending > 0, "term.dropped-with-output-pending");
+        ctx.feat_if(pending > 1, "term.dropped-with-several-chunks-pending");
+    } else {
+        // end marker: written after the last drop, must arrive
+        let end_id = chunks.len();
+        end_marker = Some(end_id);
+        emit(&mut term, &[Part::Payload(5)], &mut chunks)?;
+        term.flush().map_err(|e| Fail::new("term:flush-error", format!("{e}")))?;
+        // push everything out: poll until the queue is empty (logical bound on iterations)
+        let mut rounds = 0;
+        while term.frames_pending() > 0 {
+            term.poll(Some(Duration::from_millis(50)))
+                .map_err(|e| Fail::new("term:poll-error", format!("{e:?}")))?;
+            rounds += 1;
+            if rounds > 4000 {
+                ctx.nondeciding = true;
+                ctx.feat("term.drain-watchdog");
+                return Ok(());
+            }
+        }
+        let end_body = chunks[end_id].body.clone();
+        arrived = peer.wait_for(|rec| find(rec, &end_body, 0).is_some(), Duration::from_secs(3));
     }
-    let end_body = chunks[end_id].body.clone();
-    let arrived = peer.wait_for(|rec| find(rec, &end_body, 0).is_some(), Duration::from_secs(3));
 
     // coverage from the IO log
     let log = unix_verif::take_log();
@@ -412,10 +435,23 @@ fn check_term(script: &[SOp], drain: &DrainSpec, seed: u64, ctx: &mut Ctx) -> Re
     ctx.feat_n("io.short-writes", short);
     ctx.feat_n("io.eagain", eagain);
 
-    let received = peer.received();
-    drop(term);
+    let received = if dropped_early {
+        // dispose writes what it keeps plus the closing sequence; take the stream once it is quiet
+        drop(term);
+        peer.wait_for(|_| false, Duration::from_millis(300));
+        peer.received()
+    } else {
+        let received = peer.received();
+        drop(term);
+        received
+    };
     drop(peer);
 
+    if chunks.is_empty() {
+        // the session wrote nothing before the terminal went away
+        ctx.feat("term.session-without-chunks");
+        return Ok(());
+    }
     // parse the received stream by chunk headers
     let start = match find(&received, b"<<0:", 0) {
         Some(p) => p,
@@ -460,6 +496,12 @@ fn check_term(script: &[SOp], drain: &DrainSpec, seed: u64, ctx: &mut Ctx) -> Re
         let want = &chunks[id].body;
         ensure!(want.len() == close + 2 - pos + len, "term:header-length", "chunk {id} header says {len}, written {}", want.len());
         let end = pos + want.len();
+        if dropped_early && end > received.len() && received[pos..] == want[..received.len() - pos] {
+            // the stream stops inside the chunk and nothing follows it: dispose gave up waiting for
+            // a slow terminal (it waits a bounded time); not a torn frame followed by other output
+            ctx.feat("term.stream-ends-inside-chunk-after-drop");
+            break;
+        }
         if end > received.len() || &received[pos..end] != want.as_slice() {
             let got_len = received.len().saturating_sub(pos).min(want.len());
             let diff = received[pos..pos + got_len]
@@ -498,7 +540,9 @@ fn check_term(script: &[SOp], drain: &DrainSpec, seed: u64, ctx: &mut Ctx) -> Re
             last_drop_at
         );
     }
-    ensure!(delivered[end_id], "term:missing-chunk", "end marker chunk did not arrive");
+    if let Some(end_id) = end_marker {
+        ensure!(delivered[end_id], "term:missing-chunk", "end marker chunk did not arrive");
+    }
     ctx.feat("term.sessions");
     Ok(())
 }
@@ -551,6 +595,20 @@ impl Prop for C16 {
                         script.push(SOp::Chunk { parts, poll_ms });
                     }
                 }
+            }
+            // one session in three ends by dropping the terminal while output is still queued,
+            // usually right after a large chunk was handed over
+            if rng.chance(1, 3) {
+                if rng.chance(2, 3) {
+                    script.push(SOp::Chunk {
+                        parts: vec![Part::Payload(rng.range(40_000, big))],
+                        poll_ms: *rng.pick(&[None, Some(0), Some(1)]),
+                    });
+                    if rng.bool() {
+                        script.push(SOp::Chunk { parts: vec![Part::Payload(rng.range(0, 5000))], poll_ms: None });
+                    }
+                }
+                script.push(SOp::DropTerminal);
             }
             let drain = match rng.below(4) {
                 0 => DrainSpec::Fast,
